@@ -17,6 +17,48 @@ func init() { register("C17", c17) }
 // C17 — chunks secured with an expired token are rejected.
 // Decided clause: a superseded token can only stop being accepted if it is
 // removed from the table the receiver searches (DESIGN §4 C17).
+type retainFilter struct {
+	at       ssa.Instruction
+	ok       bool // the expiring instance is not retained
+	identity bool // ... and nothing else is dropped (identity comparison)
+	detail   string
+}
+
+// retainFilters describes the append-back sites of the expiry function: which comparison guards them.
+func retainFilters(c *core.Ctx, f *ssa.Function, instances, tokField *types.Var) []retainFilter {
+	var out []retainFilter
+	inst := f.Params[len(f.Params)-1]
+	for _, s := range ssax.ContainerSites(f, instances) {
+		if s.Kind != ssax.MapStore || !isAppendOf(s.Val) {
+			continue
+		}
+		vals := appendedValues(s.Val)
+		r := retainFilter{at: s.Instr, detail: "append-back is not guarded by an inequality of the entry and the expiring instance (identity or securityTokenID)"}
+		for _, fact := range ssax.FactsAt(s.Instr) {
+			if fact.Op != token.NEQ {
+				continue
+			}
+			if (isVal(fact.X, vals) && ssax.Strip(fact.Y) == inst) || (isVal(fact.Y, vals) && ssax.Strip(fact.X) == inst) {
+				r.ok, r.identity = true, true
+				r.detail = "retained entries satisfy entry != expiring instance (identity): exactly the expired instance is dropped"
+			}
+			lx, ly := loadedField(fact.X), loadedField(fact.Y)
+			if lx.f == tokField && ly.f == tokField {
+				// one side the loop element being appended, the other the parameter
+				a, b := lx.base, ly.base
+				if (isVal(a, vals) && ssax.Strip(b) == inst) || (isVal(b, vals) && ssax.Strip(a) == inst) {
+					r.ok = true
+					if !r.identity {
+						r.detail = "retained entries satisfy entry.securityTokenID != expiring.securityTokenID"
+					}
+				}
+			}
+		}
+		out = append(out, r)
+	}
+	return out
+}
+
 func c17(c *core.Ctx) {
 	initOwners(c)
 	c.P.BuildSSA()
@@ -53,7 +95,7 @@ func c17(c *core.Ctx) {
 			c.Ob("C17.delay", fname(schedExp)+"·timer armed with the scaled lifetime", pos(c, s.in), armed, "a time.NewTimer/After duration in the function is computed from lifetime×K: "+boolStr(armed))
 		}
 	}
-	c.Rule("C17.remove", "scheduleExpiration, after its timer fired, rewrites SecureChannel.instances under instancesMu and retains exactly the entries whose securityTokenID differs from the expiring instance's (the append-back is dominated by a `!=` comparison of the two securityTokenIDs)", 1)
+	c.Rule("C17.remove", "scheduleExpiration, after its timer fired, rewrites SecureChannel.instances under instancesMu and does not retain the expiring instance: the append-back is dominated by a `!=` comparison of the entry with the expiring instance (identity) or of their securityTokenIDs", 1)
 
 	cg := c.P.CallGraph()
 	fns := libFns(c, "uasc")
@@ -133,33 +175,11 @@ func c17(c *core.Ctx) {
 	// C17.remove
 	{
 		f := schedExp
-		inst := f.Params[len(f.Params)-1]
-		n := 0
-		for _, s := range ssax.ContainerSites(f, instances) {
-			if s.Kind != ssax.MapStore || !isAppendOf(s.Val) {
-				continue
-			}
-			n++
-			vals := appendedValues(s.Val)
-			ok := false
-			detail := "append-back is not guarded by a securityTokenID inequality"
-			for _, fact := range ssax.FactsAt(s.Instr) {
-				if fact.Op != token.NEQ {
-					continue
-				}
-				lx, ly := loadedField(fact.X), loadedField(fact.Y)
-				if lx.f == tokField && ly.f == tokField {
-					// one side the loop element being appended, the other the parameter
-					a, b := lx.base, ly.base
-					if (isVal(a, vals) && ssax.Strip(b) == inst) || (isVal(b, vals) && ssax.Strip(a) == inst) {
-						ok = true
-						detail = "retained entries satisfy entry.securityTokenID != expiring.securityTokenID"
-					}
-				}
-			}
-			c.Ob("C17.remove", fname(f)+"·retain-filter", pos(c, s.Instr), ok, detail)
+		fl := retainFilters(c, f, instances, tokField)
+		for _, r := range fl {
+			c.Ob("C17.remove", fname(f)+"·retain-filter", pos(c, r.at), r.ok, r.detail)
 		}
-		if n == 0 {
+		if len(fl) == 0 {
 			// the table must at least be rewritten (a removal) after the timer
 			rew := false
 			for _, s := range ssax.ContainerSites(f, instances) {
